@@ -4,8 +4,10 @@ import os
 import time
 
 ROOT = os.path.dirname(os.path.dirname(os.path.abspath(__file__)))
-EVIDENCE_DIR = os.path.join(ROOT, 'evidence')
-REPLAY_DIR = os.path.join(ROOT, 'replays')
+# VERIF_OUT redirects what a run writes (scratch experiments against a scratch worktree: VERIF_REPO=<tree> VERIF_OUT=<dir>)
+_OUT = os.environ.get('VERIF_OUT', ROOT)
+EVIDENCE_DIR = os.path.join(_OUT, 'evidence')
+REPLAY_DIR = os.path.join(_OUT, 'replays')
 FINDINGS = os.path.join(ROOT, 'known_findings.json')
 
 LEVELS = ('exploration', 'fault_enumeration', 'model_checking', 'proof', 'translation_validation', 'other')
